@@ -110,6 +110,20 @@ def extract(repo, failures):
     else:
         d["countsOnlyLogEvents"] = len(re.findall(r"event\(\)\s*==\s*MacroMetadata::Event::Log\s*\)\s*\{\s*thread_context->increment_failure_counter", ls)) >= 2
         d["timestampBeforeContext"] = 0 <= ls.find("current_timestamp") < ls.find("get_local_thread_context")
+    # the failure counter: incremented with one atomic read-modify-write, read-and-reset with one atomic exchange (a load
+    # followed by a store would lose an increment that lands in between: the model's get-and-reset is one step)
+    try:
+        tcm = strip_cpp_comments(read(repo, "include/quill/core/ThreadContextManager.h"))
+    except Exception:
+        tcm = ""
+    gr = func_body(tcm, r"size_t\s+get_and_reset_failure_counter\s*\(\s*\)\s*(?:noexcept)?\s*\{")
+    inc = func_body(tcm, r"void\s+increment_failure_counter\s*\(\s*\)\s*(?:noexcept)?\s*\{")
+    if gr is None or inc is None:
+        failures.append("backend: failure counter accessors not found")
+        d["counterResetAtomic"] = False
+    else:
+        d["counterResetAtomic"] = bool(re.search(r"return\s+_failure_counter\.exchange\(\s*0\b", gr)) and "_failure_counter.store" not in gr \
+            and "_failure_counter =" not in gr and bool(re.search(r"_failure_counter\.fetch_add\(\s*1\b", inc))
     fl2 = func_body(lg, r"void\s+flush_log\s*\([^)]*\)\s*\{")
     d["flushRetries"] = bool(fl2 and re.search(r"while\s*\(\s*!this->(template\s+)?log_statement", fl2))
 
